@@ -46,11 +46,13 @@ ITEMS = [
        ensures=[KEEP,
                 ('ok_iff', f'r is Ok <==> !{L}.contains_key(*policy_id) && {M}.contains_key(*policy_id) && {M}[*policy_id].view() =~= SSet::<PolicyID>::empty()'),
                 ('effect', f'r is Ok ==> {T2} == {T}.remove(*policy_id) && {L2} == {L} && {M2} == {M}.remove(*policy_id) && r->Ok_0 == *{T}[*policy_id]'),
+                ('error_class', f'r is Err ==> (r->Err_0 is NotTemplateError <==> {L}.contains_key(*policy_id)) && (r->Err_0 is RemovePolicyNoTemplateError <==> !{L}.contains_key(*policy_id) && !{M}.contains_key(*policy_id))'),
                 FAIL]),
     Fn(PS, 'impl PolicySet > fn unlink', wrap=W, requires=INV,
        ensures=[KEEP,
                 ('ok_iff', f'r is Ok <==> !{T}.contains_key(*policy_id) && {L}.contains_key(*policy_id)'),
                 ('effect', f'r is Ok ==> {T2} == {T} && {L2} == {L}.remove(*policy_id) && r->Ok_0 == {L}[*policy_id] && {M2}.dom() == {M}.dom() && (forall|k: PolicyID| {M}.contains_key(k) ==> #[trigger] {M2}[k].view() == (if k == tid({L}[*policy_id]) {{ {M}[k].view().remove(*policy_id) }} else {{ {M}[k].view() }}))'),
+                ('error_class', f'r is Err ==> (r->Err_0 is NotLinkError <==> {T}.contains_key(*policy_id)) && (r->Err_0 is UnlinkingError <==> !{T}.contains_key(*policy_id) && !{L}.contains_key(*policy_id))'),
                 FAIL]),
     Fn(PS, 'impl PolicySet > fn remove_static', wrap=W, requires=INV,
        ensures=[KEEP,
